@@ -6,6 +6,7 @@ import (
 	"sync/atomic"
 	"time"
 
+	"github.com/formancehq/ledger/internal/verifhook"
 	"github.com/formancehq/stack/libs/go-libs/collectionutils"
 	"github.com/formancehq/stack/libs/go-libs/logging"
 	"github.com/pkg/errors"
@@ -118,6 +119,7 @@ func (defaultLocker *DefaultLocker) Lock(ctx context.Context, accounts Accounts)
 			}
 			if node.Value().tryLock(ctx, defaultLocker) {
 				node.Remove()
+				verifhook.Note(ctx, "lock.granted", "intent", node.Value())
 				close(node.Value().acquired)
 			}
 			node = node.Next()
@@ -129,12 +131,14 @@ func (defaultLocker *DefaultLocker) Lock(ctx context.Context, accounts Accounts)
 		defer defaultLocker.mu.Unlock()
 
 		intent.unlock(logging.ContextWithLogger(ctx, logger), defaultLocker)
+		verifhook.Note(ctx, "lock.released", "intent", intent)
 
 		recheck()
 	}
 
 	acquired := intent.tryLock(ctx, defaultLocker)
 	if acquired {
+		verifhook.Note(ctx, "lock.acquired", "intent", intent)
 		defaultLocker.mu.Unlock()
 		logger.Debugf("Lock directly acquired")
 
@@ -143,13 +147,17 @@ func (defaultLocker *DefaultLocker) Lock(ctx context.Context, accounts Accounts)
 
 	logger.Debugf("Lock not acquired, some accounts are already used, putting in queue")
 	defaultLocker.intents.Append(intent)
+	verifhook.Note(ctx, "lock.enqueued", "intent", intent)
 	defaultLocker.mu.Unlock()
+	verifhook.Yield(ctx, "lock.wait", "intent", intent)
 
 	select {
 	case <-ctx.Done():
 		defaultLocker.intents.RemoveValue(intent)
+		verifhook.Note(ctx, "lock.cancelled", "intent", intent)
 		return nil, errors.Wrapf(ctx.Err(), "locking accounts: %s as read, and %s as write", accounts.Read, accounts.Write)
 	case <-intent.acquired:
+		verifhook.Note(ctx, "lock.observed", "intent", intent)
 		return releaseIntent, nil
 	}
 }
